@@ -22,3 +22,62 @@ def run(chk: Check):
               {"hdr": {"kind": "var_graph"}, "ev": D.var_graph_events(rng, 40 if chk.quick else 400)}]
     chk.tv("Trace_Growth.tla", traces, tag="growth", keyfn=lambda r: f"{r.trace['hdr']['kind']}:{r.conjunct}",
            describe=lambda r: str(r.trace["ev"][r.line - 1])[:400])
+
+    var_wiring(chk, rng)
+
+
+VW_MC = """CONSTANTS NV = 2 NN = {nn} Kind <- Kind{nn} Names = {names} Atomic = {atomic}
+SPECIFICATION Spec
+VIEW View
+INVARIANT ClaimsImplyHolds
+"""
+VW_STRICT = "INVARIANT DistAtOwnVar\nINVARIANT HoldsImplyClaims\nINVARIANT AtMostOneVar\nPROPERTY RejectedIsNoOp\n"
+
+
+def var_wiring(chk, rng):
+    """VarWiring.tla: ownership of nodes by variables (Var.value_node / dist_node / name setters, Dist.at)."""
+    import re
+    from vlib.core import run_tlc, simulate_behaviours
+    acts = ["DoSetValueNode", "DoSetDistNode", "DoSetAt", "DoSetVarName", "DoSetNodeName"]
+    for nn, names in ((3, '{""}'), (2, '{"", "a"}')):
+        chk.mc("MC_VarWiring.tla", VW_MC.format(nn=nn, names=names, atomic="TRUE") + VW_STRICT, tag=f"varwiring-atomic-{nn}",
+               expect_actions=acts, what=f"2 vars, {nn} free nodes, names {names}: with atomic setters every ownership invariant holds")
+        chk.mc("MC_VarWiring.tla", VW_MC.format(nn=nn, names=names, atomic="FALSE"), tag=f"varwiring-as-coded-{nn}", expect_actions=acts,
+               what=f"2 vars, {nn} free nodes, names {names}; as coded: a node never claims a var that does not hold it")
+    # the stronger invariants are expected to FAIL for the setters as coded (documented deviation G1, DESIGN 14.7)
+    r = run_tlc("MC_VarWiring.tla", VW_MC.format(nn=3, names='{""}', atomic="FALSE") + "INVARIANT AtMostOneVar\n", tag="growth-vw-g1",
+                workers=1, timeout=120)
+    chk.extra["G1_as_coded_counterexample"] = r.error or "none"
+    if r.error == "invariant:AtMostOneVar":
+        ops = [re.findall(r'"(\w+)", (\d+), (\d+)', m) for m in re.findall(r"/\\ last = <<(.*?)>>", r.cex)]
+        ops = [o[0] for o in ops if o]
+        key = {"set_value_node": ("v", "n"), "set_dist_node": ("v", "d"), "set_at": ("d", "w")}
+        replay = [{"op": o[0], key[o[0]][0]: int(o[1]), key[o[0]][1]: int(o[2])} for o in ops]
+        t = D.wiring_trace(rng, ops=replay, nv=2, kinds=["val", "dist", "dist"])
+        last = t["ev"][-1]["obs"]
+        shared = [n for n in set(last["vval"]) if last["vval"].count(n) > 1]
+        chk.extra["G1_counterexample_reproduced_on_real_objects"] = bool(shared)
+        chk.note("G1 (not a listed property): Var.value_node / Var.dist_node setters are not atomic - a rejected call "
+                 "releases the var's current node; TLC's counterexample (one node ends up the value node of two vars) "
+                 f"replayed on real objects: reproduced={bool(shared)} ops={replay}")
+    cfg4 = 'CONSTANTS NV = 3 NN = 4 Kind <- Kind4 Names = {""} Atomic = FALSE\n'
+    cfg3 = 'CONSTANTS NV = 2 NN = 3 Kind <- Kind3 Names = {""} Atomic = FALSE\n'
+    traces = [D.wiring_trace(rng, 30, nv=3, kinds=["val", "val", "dist", "dist"]) for _ in range(150 if chk.quick else 3000)]
+    chk.tv("Trace_VarWiring.tla", traces, tag="var_wiring", cfg_extra=cfg4, keyfn=lambda r: f"var_wiring:{r.conjunct}",
+           describe=lambda r: str(r.trace["ev"][r.line - 1])[:400])
+    # spec -> code: behaviours of the as-coded spec replayed on real objects
+    bs = simulate_behaviours("MC_VarWiring.tla", VW_MC.format(nn=3, names='{"", "a", "b"}', atomic="FALSE"), tag="growth-vw-rp",
+                             num=60 if chk.quick else 1000, depth=14, seed=chk.seed + 3)
+    rp = []
+    names = {"set_value_node": ("v", "n"), "set_dist_node": ("v", "d"), "set_at": ("d", "w"), "set_var_name": ("v", "s"),
+             "set_node_name": ("n", "s")}
+    for b in bs:
+        ops = []
+        for _, st in b[1:]:
+            m = re.search(r'/\\ last = <<"(\w+)", (\d+), ("?)(\w*)"?>>', st)
+            a, c = names[m.group(1)]
+            ops.append({"op": m.group(1), a: int(m.group(2)), c: m.group(4) if m.group(3) else int(m.group(4))})
+        rp.append(D.wiring_trace(rng, ops=ops, nv=2, kinds=["val", "dist", "dist"]))
+    chk.extra["varwiring_tlc_behaviours_replayed"] = len(rp)
+    chk.tv("Trace_VarWiring.tla", rp, tag="var_wiring_replay", cfg_extra=cfg3, keyfn=lambda r: f"var_wiring_replay:{r.conjunct}",
+           describe=lambda r: str(r.trace["ev"][r.line - 1])[:400])
